@@ -6,7 +6,7 @@ import ast
 from ..cfg import CFG
 from ..engine import AnalysisError, MechanismMissing, PropertySpec, norm
 from ..pyutil import call_name, calls, const_str, is_name, literal, subscript_key, walk_local
-from ._api import API, db_accesses
+from ._api import API, db_accesses, api_fn
 
 SPEC = PropertySpec(
     "C20",
@@ -41,7 +41,7 @@ def _raises_invalid(block) -> bool:
 )
 def r20_1(ctx, rep):
     R = "R20.1"
-    fn = ctx.func(API, "load_model", R)
+    fn = api_fn(ctx, "load_model", R)
     site = API + ":load_model"
     cfg = CFG(fn, R)
     acc, unk = db_accesses(fn)
@@ -89,7 +89,17 @@ def r20_1(ctx, rep):
         if isinstance(s, ast.Assign) and isinstance(s.value, ast.DictComp) and isinstance(s.targets[0], ast.Name):
             g = s.value.generators[0]
             sides[s.targets[0].id] = (norm(g.iter), norm(g.ifs[0]) if g.ifs else "")
-        if isinstance(s, ast.Assign) and is_name(s.targets[0], "exclude_options"):
+    # the filter of both comprehensions is `<key> not in <literal list>`: that list names the options that are NOT compared
+    excl_names = set()
+    for s in walk_local(fn):
+        if isinstance(s, ast.Assign) and isinstance(s.value, ast.DictComp) and s.value.generators[0].ifs:
+            t = s.value.generators[0].ifs[0]
+            if isinstance(t, ast.Compare) and isinstance(t.ops[0], ast.NotIn) and isinstance(t.comparators[0], ast.Name):
+                excl_names.add(t.comparators[0].id)
+            elif isinstance(t, ast.Compare) and isinstance(t.ops[0], ast.NotIn):
+                excl = literal(t.comparators[0])
+    for s in walk_local(fn):
+        if isinstance(s, ast.Assign) and isinstance(s.targets[0], ast.Name) and s.targets[0].id in excl_names:
             excl = literal(s.value)
     cmp_ok = False
     for x in cfg.nodes:
@@ -143,8 +153,8 @@ def r20_2(ctx, rep):
                     pat = it
         return folder, walk, pat
 
-    a = scan(ctx.func(API, "load_model", R))
-    b = scan(ctx.func(API, "_compile_model", R))
+    a = scan(api_fn(ctx, "load_model", R))
+    b = scan(api_fn(ctx, "_compile_model", R))
     if None in a or None in b:
         raise MechanismMissing(R, "file scans not found (load_model %s, _compile_model %s)" % (a, b))
     for i, what in enumerate(("folder list", "os.walk arguments", "file pattern")):
@@ -159,7 +169,7 @@ def r20_2(ctx, rep):
 )
 def r20_3(ctx, rep):
     R = "R20.3"
-    fn = ctx.func(API, "transfer_model", R)
+    fn = api_fn(ctx, "transfer_model", R)
     site = API + ":transfer_model"
     found = False
     for t in ast.walk(fn):
@@ -189,7 +199,7 @@ def r20_3(ctx, rep):
 @SPEC.rule("R20.4", "option normalisation (forcing expand_mx for the pickle cache, disabling cache under codegen) dominates the load attempt; save_model stores the current version and the merged options")
 def r20_4(ctx, rep):
     R = "R20.4"
-    fn = ctx.func(API, "transfer_model", R)
+    fn = api_fn(ctx, "transfer_model", R)
     cfg = CFG(fn, R)
     loads = [x for x in cfg.stmts() if any(call_name(c) == "load_model" for c in calls(x.ast))]
     forcing = [x for x in cfg.stmts() if isinstance(x.ast, ast.Assign) and any(subscript_key(t) == "expand_mx" for t in x.ast.targets)]
@@ -200,12 +210,12 @@ def r20_4(ctx, rep):
                 ok = False
     rep.ob(R, API + ":transfer_model", "expand_mx forced before load", ok,
            "options must be normalised before load_model compares them with the stored ones (else every load of a pickle cache misses or a stale one matches)")
-    sv = ctx.func(API, "save_model", R)
+    sv = api_fn(ctx, "save_model", R)
     t = [norm(s) for s in ast.walk(sv) if isinstance(s, ast.Assign)]
     rep.ob(R, API + ":save_model", "version and options stored", "db['version'] = __version__" in t and "db['options'] = compiler_options" in t
            and any(x.startswith("compiler_options = _merge_default_options(compiler_options)") for x in t),
            "the cache must record pymoca's version and the merged options it was compiled with")
-    ld = ctx.func(API, "load_model", R)
+    ld = api_fn(ctx, "load_model", R)
     t = [norm(s) for s in ast.walk(ld) if isinstance(s, ast.Assign)]
     rep.ob(R, API + ":load_model", "options merged before comparison", any(x.startswith("compiler_options = _merge_default_options(compiler_options)") for x in t),
            "load_model must merge defaults into the given options the same way save_model does")
